@@ -453,6 +453,23 @@ class MorphFactory:
                 n_v = pq @ v
                 if n_v in vertices or n_v == lighting:
                     raise DependentException()
+        # The loop above finds the products of three vertices only. A candidate that
+        # anticommutes with the center and is a product of single legs (an odd number
+        # of them, possibly five or more) lies in the algebra of the star as well.
+        center = self.get_center()
+        if center is not None and not center | lighting:
+            basis: list[int] = []
+            def reduce(x: int) -> int:
+                for b in basis:
+                    x = min(x, x ^ b)
+                return x
+            for one in ones:
+                x = reduce(int(one.bits.to01(), 2))
+                if x:
+                    basis.append(x)
+                    basis.sort(reverse=True)
+            if reduce(int(lighting.bits.to01(), 2)) == 0:
+                raise DependentException()
 
     def append_to_center(self, lighting:PauliString) -> None:
         """
